@@ -14,6 +14,217 @@ type LLeaf struct {
 	Raw   bool
 	Blank bool   // raw only
 	Align string // text only: "", right, center
+	Comp  *LComp // another content component (the Lean model: Leaves.LeafM); nil for mj-text / mj-raw
+}
+
+// LComp: a content component with exactly the parameters its skeleton depends on (Lean: Leaves.LeafM)
+type LComp struct {
+	Kind    string // text button image divider spacer table social navbar accordion carousel
+	Href    bool
+	Content bool
+	Rows    int // table
+	Vert    bool
+	SocEls  []LSocEl
+	Hamb    bool
+	Links   []bool // navbar: link has content
+	AccEls  []LAccEl
+	Thumbs  bool
+	Imgs    []bool // carousel: image has href (at least one image)
+}
+type LSocEl struct{ Icon, Href, Text bool }
+type LAccEl struct {
+	Title, Text int // -1 absent, 0 empty, 1 with content
+	IconLeft    bool
+}
+
+func tri(v int) string {
+	switch v {
+	case -1:
+		return "n"
+	case 0:
+		return "0"
+	}
+	return "1"
+}
+
+// enc: the item of the leaves word (Driver/HtmlP.lean `compOf`)
+func (c *LComp) enc() string {
+	switch c.Kind {
+	case "text":
+		return "xT" + b01(c.Content)
+	case "button":
+		return "xB" + b01(c.Href) + b01(c.Content)
+	case "image":
+		return "xI" + b01(c.Href)
+	case "divider":
+		return "xD"
+	case "spacer":
+		return "xP"
+	case "table":
+		return fmt.Sprintf("xA%d.%s", c.Rows, b01(c.Content))
+	case "social":
+		s := "xS" + b01(c.Vert)
+		for _, e := range c.SocEls {
+			s += ":" + b01(e.Icon) + b01(e.Href) + b01(e.Text)
+		}
+		return s
+	case "navbar":
+		s := "xN" + b01(c.Hamb) + ":"
+		for _, l := range c.Links {
+			s += b01(l)
+		}
+		return s
+	case "accordion":
+		s := "xC"
+		for _, e := range c.AccEls {
+			s += ":" + tri(e.Title) + tri(e.Text) + b01(e.IconLeft)
+		}
+		return s
+	case "carousel":
+		s := "xK" + b01(c.Thumbs)
+		for _, h := range c.Imgs {
+			s += b01(h)
+		}
+		return s
+	}
+	return "x?"
+}
+
+// mjml: the component as the author writes it; every content slot gets a sentinel, in the order the Model counts them
+func (c *LComp) mjml(sent func() string) string {
+	cont := func(has bool) string {
+		if has {
+			return sent()
+		}
+		return ""
+	}
+	switch c.Kind {
+	case "text":
+		return "<mj-text>" + cont(c.Content) + "</mj-text>"
+	case "button":
+		h := ""
+		if c.Href {
+			h = ` href="http://x/u"`
+		}
+		return "<mj-button" + h + ">" + cont(c.Content) + "</mj-button>"
+	case "image":
+		h := ""
+		if c.Href {
+			h = ` href="http://x/i"`
+		}
+		return `<mj-image src="a.png"` + h + `/>`
+	case "divider":
+		return "<mj-divider/>"
+	case "spacer":
+		return "<mj-spacer/>"
+	case "table":
+		if c.Rows == 0 {
+			return "<mj-table>" + cont(c.Content) + "</mj-table>"
+		}
+		var b strings.Builder
+		for i := 0; i < c.Rows; i++ {
+			b.WriteString("<tr><td>" + sent() + "</td></tr>")
+		}
+		return "<mj-table>" + b.String() + "</mj-table>"
+	case "social":
+		var b strings.Builder
+		for i, e := range c.SocEls {
+			a := ` name="nosuchnetwork"`
+			if e.Icon {
+				a = []string{` name="facebook"`, ` name="twitter"`, ` src="http://x/icon.png"`}[i%3]
+			}
+			if e.Href {
+				a += ` href="http://x/s"`
+			}
+			// an element without icon writes nothing at all: its text is not a content slot of the Model (SocEl.slots)
+			txt := ""
+			if e.Text {
+				if e.Icon {
+					txt = sent()
+				} else {
+					txt = "dropped"
+				}
+			}
+			b.WriteString("<mj-social-element" + a + ">" + txt + "</mj-social-element>")
+		}
+		m := ""
+		if c.Vert {
+			m = ` mode="vertical"`
+		}
+		return "<mj-social" + m + ">" + b.String() + "</mj-social>"
+	case "navbar":
+		var b strings.Builder
+		for _, l := range c.Links {
+			b.WriteString(`<mj-navbar-link href="/a">` + cont(l) + "</mj-navbar-link>")
+		}
+		h := ""
+		if c.Hamb {
+			h = ` hamburger="hamburger"`
+		}
+		return "<mj-navbar" + h + ">" + b.String() + "</mj-navbar>"
+	case "accordion":
+		var b strings.Builder
+		for _, e := range c.AccEls {
+			a := ""
+			if e.IconLeft {
+				a = ` icon-position="left"`
+			}
+			b.WriteString("<mj-accordion-element" + a + ">")
+			if e.Title >= 0 {
+				b.WriteString("<mj-accordion-title>" + cont(e.Title == 1) + "</mj-accordion-title>")
+			}
+			if e.Text >= 0 {
+				b.WriteString("<mj-accordion-text>" + cont(e.Text == 1) + "</mj-accordion-text>")
+			}
+			b.WriteString("</mj-accordion-element>")
+		}
+		return "<mj-accordion>" + b.String() + "</mj-accordion>"
+	case "carousel":
+		var b strings.Builder
+		for i, h := range c.Imgs {
+			a := ""
+			if h {
+				a = ` href="http://x/c"`
+			}
+			b.WriteString(fmt.Sprintf(`<mj-carousel-image src="c%d.png"%s/>`, i, a))
+		}
+		t := ""
+		if !c.Thumbs {
+			t = ` thumbnails="hidden"`
+		}
+		return "<mj-carousel" + t + ">" + b.String() + "</mj-carousel>"
+	}
+	return ""
+}
+
+// genLComp: a random component; child counts 0–4 so that first / last / only / none are all frequent
+func genLComp(r *Rng) *LComp {
+	c := &LComp{Kind: r.Pick([]string{"text", "button", "image", "divider", "spacer", "table", "social", "social", "navbar", "navbar", "accordion", "accordion", "carousel"})}
+	c.Href, c.Content = r.Bool(1, 2), r.Bool(3, 4)
+	switch c.Kind {
+	case "table":
+		c.Rows = []int{0, 0, 1, 2, 3}[r.Intn(5)]
+	case "social":
+		c.Vert = r.Bool(1, 3)
+		for i, n := 0, r.Intn(5); i < n; i++ {
+			c.SocEls = append(c.SocEls, LSocEl{Icon: r.Bool(3, 4), Href: r.Bool(1, 2), Text: r.Bool(2, 3)})
+		}
+	case "navbar":
+		c.Hamb = r.Bool(1, 3)
+		for i, n := 0, r.Intn(5); i < n; i++ {
+			c.Links = append(c.Links, r.Bool(4, 5))
+		}
+	case "accordion":
+		for i, n := 0, r.Intn(4); i < n; i++ {
+			c.AccEls = append(c.AccEls, LAccEl{Title: r.Intn(3) - 1, Text: r.Intn(3) - 1, IconLeft: r.Bool(1, 3)})
+		}
+	case "carousel":
+		c.Thumbs = r.Bool(2, 3)
+		for i, n := 0, 1+r.Intn(4); i < n; i++ {
+			c.Imgs = append(c.Imgs, r.Bool(1, 3))
+		}
+	}
+	return c
 }
 type LColumn struct {
 	Gutter bool
@@ -67,6 +278,9 @@ func (s *LSection) split() bool {
 // ---- MJML printer ----
 
 func (l LLeaf) mjml(sent func() string) string {
+	if l.Comp != nil {
+		return l.Comp.mjml(sent)
+	}
 	if l.Raw {
 		if l.Blank {
 			return "<mj-raw></mj-raw>"
@@ -200,20 +414,23 @@ func b01(b bool) string {
 	return "0"
 }
 func leavesWord(ls []LLeaf) string {
-	var b strings.Builder
+	var items []string
 	for _, l := range ls {
-		if l.Raw {
+		switch {
+		case l.Comp != nil:
+			items = append(items, l.Comp.enc())
+		case l.Raw:
 			if !l.Blank {
-				b.WriteByte('r')
+				items = append(items, "r")
 			} // blank raws in a column emit nothing and are dropped from the model document
-		} else {
-			b.WriteByte('t')
+		default:
+			items = append(items, "t")
 		}
 	}
-	if b.Len() == 0 {
+	if len(items) == 0 {
 		return "-"
 	}
-	return b.String()
+	return strings.Join(items, ",")
 }
 func (c *LColumn) enc() string { return "C" + b01(c.Gutter) + " " + leavesWord(c.Leaves) }
 func (k LSChild) enc() string {
@@ -269,7 +486,9 @@ func genLColumn(r *Rng) *LColumn {
 	n := []int{0, 1, 1, 2}[r.Intn(4)]
 	c := &LColumn{Gutter: r.Bool(3, 10), Css: r.Bool(1, 5)}
 	for i := 0; i < n; i++ {
-		if r.Bool(8, 10) {
+		if r.Bool(3, 10) {
+			c.Leaves = append(c.Leaves, LLeaf{Comp: genLComp(r)})
+		} else if r.Bool(8, 10) {
 			c.Leaves = append(c.Leaves, LLeaf{Align: []string{"", "", "right", "center"}[r.Intn(4)]})
 		} else {
 			c.Leaves = append(c.Leaves, LLeaf{Raw: true, Blank: r.Bool(3, 10)})
@@ -335,7 +554,11 @@ func genLBlock(r *Rng) LBlock {
 	case "hero":
 		b := LBlock{K: "hero"}
 		for i, n := 0, r.Intn(3); i < n; i++ {
-			b.Hero = append(b.Hero, LLeaf{})
+			if r.Bool(1, 3) {
+				b.Hero = append(b.Hero, LLeaf{Comp: genLComp(r)})
+			} else {
+				b.Hero = append(b.Hero, LLeaf{})
+			}
 		}
 		return b
 	}
